@@ -377,7 +377,9 @@ looping through all list types: {ty:?} {base:?}"
                 }
             }
             FieldValue::Enum(_) => {
-                unimplemented!("enum values are not currently supported: {self} {value:?}")
+                // Enum values are not currently supported: no type a schema can declare
+                // accepts them, so they are never valid (reported as a type error by callers).
+                false
             }
         }
     }
